@@ -89,7 +89,7 @@ PROPS = {
     },
     "C05": {
         "level": "exploration",
-        "rule": ("exhaustive: every sequence of line kinds up to length 3 (quick) / 4 (thorough) over a 46-kind alphabet (blank, "
+        "rule": ("exhaustive: every sequence of line kinds up to length 3 (quick) / 4 (thorough) over a 48-kind alphabet (blank, "
                  "whitespace, comments, 8 version-line kinds, 11 headers, 6 header look-alikes, valid and invalid records of every "
                  "section, CR / U+3000 / U+0085 endings) in LF/CRLF with and without final newline, a 1/16 sample of them in "
                  "UTF-8+BOM, UTF-16LE, UTF-16BE; random sequences of length 5-40 in all four encodings; metamorphic filler "
